@@ -51,4 +51,37 @@ RingOK(a, b, c, s, N) ==
     /\ SMAdjoint(SMAdjoint(a, N, N), N, N) = a
     /\ SMInner(a, b, N, N) = SMMul(SMAdjoint(a, N, N), b, N, N, N)
     /\ SMTrace(SMMul(a, b, N, N, N), N, N) = SMTrace(SMMul(b, a, N, N, N), N, N)
+\* ------------------------------------------------------------ complex element types
+\* static_matrix<std::complex<T>, N, M> on Gaussian integers: an element is a pair <<re, im>>; math::adjoint of a
+\* block is the CONJUGATE transpose (adjoint_impl applies math::adjoint to every element), inner_product conjugates
+\* its second argument, norm is the Frobenius norm.
+CZ          == <<0, 0>>
+CAddE(x, y) == <<x[1] + y[1], x[2] + y[2]>>
+CMulE(x, y) == <<x[1] * y[1] - x[2] * y[2], x[1] * y[2] + x[2] * y[1]>>
+CConjE(x)   == <<x[1], -x[2]>>
+CAt(x, M, i, j) == x[i * M + j + 1]
+CMake(N, M, f(_, _)) == [k \in 1..(N * M) |-> f((k - 1) \div M, (k - 1) % M)]
+\* sequences of re / im parts -> sequence of pairs
+CPairs(re, im) == [k \in 1..Len(re) |-> <<re[k], im[k]>>]
+CSMAdjoint(x, N, M) == CMake(M, N, LAMBDA j, i : CConjE(CAt(x, M, i, j)))
+RECURSIVE CMulAcc(_, _, _, _, _, _, _)
+CMulAcc(a, b, K, M, i, j, k) == IF k = K THEN CZ ELSE CAddE(CMulE(CAt(a, K, i, k), CAt(b, M, k, j)), CMulAcc(a, b, K, M, i, j, k + 1))
+CSMMul(a, b, N, K, M) == CMake(N, M, LAMBDA i, j : CMulAcc(a, b, K, M, i, j, 0))
+\* inner_product(x, y)(i,j) = sum_k x(k,i) * conj(y(k,j))   (N x M operands -> M x M; M = 1: the scalar <x, y>)
+RECURSIVE CInnerAcc(_, _, _, _, _, _, _)
+CInnerAcc(x, y, N, M, i, j, k) == IF k = N THEN CZ ELSE CAddE(CMulE(CAt(x, M, k, i), CConjE(CAt(y, M, k, j))), CInnerAcc(x, y, N, M, i, j, k + 1))
+CSMInner(x, y, N, M) == CMake(M, M, LAMBDA i, j : CInnerAcc(x, y, N, M, i, j, 0))
+CSMNorm2(x) == LET RECURSIVE S(_)
+                   S(k) == IF k = 0 THEN 0 ELSE x[k][1] * x[k][1] + x[k][2] * x[k][2] + S(k - 1)
+               IN  S(Len(x))
+RECURSIVE CTraceAcc(_, _, _)
+CTraceAcc(x, N, i) == IF i = N THEN CZ ELSE CAddE(CAt(x, N, i, i), CTraceAcc(x, N, i + 1))
+CSMTrace(x, N) == CTraceAcc(x, N, 0)
+\* the identities that define the adjoint (a: N x K, b: K x M, u: K x 1, v: N x 1)
+CAdjointOK(a, b, u, v, N, K, M) ==
+    /\ \A i \in 0..(N - 1), j \in 0..(K - 1) : CAt(CSMAdjoint(a, N, K), N, j, i) = CConjE(CAt(a, K, i, j))
+    /\ CSMAdjoint(CSMAdjoint(a, N, K), K, N) = a
+    /\ CSMAdjoint(CSMMul(a, b, N, K, M), N, M) = CSMMul(CSMAdjoint(b, K, M), CSMAdjoint(a, N, K), M, K, N)
+    /\ CSMInner(CSMMul(a, u, N, K, 1), v, N, 1) = CSMInner(u, CSMMul(CSMAdjoint(a, N, K), v, K, N, 1), K, 1)     \* <A u, v> = <u, A^H v>
+    /\ CSMTrace(CSMMul(CSMAdjoint(a, N, K), a, K, N, K), K) = <<CSMNorm2(a), 0>>                                 \* trace(A^H A) = ||A||_F^2
 =============================================================================
